@@ -73,8 +73,9 @@ Record invocation := { v_label : nat; v_args : list Z; v_script : nat }.
 Record evst := { e_alive : bool; e_queue : list (handle * invocation); e_evaluating : bool }.
 
 Inductive event :=
-| EvSlot (src : option (nat * gidx)) (label : nat) (args : list Z)
-      (* a user callable ran with these values; src is GHOST: the (Impl, id) of the connection it belongs to *)
+| EvSlot (src : option (nat * gidx)) (direct : bool) (label : nat) (args : list Z)
+      (* a user callable ran with these values.  GHOST (not observable in the code): src = the (Impl, id) of the
+         connection it belongs to; direct = called from Impl::emit (true) or from an evaluation pass (false) *)
 | EvAdded (ev : nat)                        (* ConnectionEvaluator::onInvocationAdded hook *)
 | EvBool (b : bool)                         (* value returned by a query / block call *)
 | EvDone (r : option exn).                  (* a top-level operation finished *)
@@ -308,19 +309,19 @@ Section Exec.
     (* run the body of a slot: the same interpreter with one unit of depth fuel less *)
     Variable rec_script : world -> nat -> res.
 
-    Definition invoke_slot (w : world) (src : option (nat * gidx)) (label : nat) (args : list Z) (sid : nat) : res :=
-      rec_script (log (EvSlot src label args) w) sid.
+    Definition invoke_slot (w : world) (src : option (nat * gidx)) (direct : bool) (label : nat) (args : list Z) (sid : nat) : res :=
+      rec_script (log (EvSlot src direct label args) w) sid.
 
     (* the call made by Impl::emit for one unblocked connection *)
     Definition fire (w : world) (i : nat) (k : gidx) (c : conn) (args : list Z) : res :=
       match c_kind c with
-      | KPlain => invoke_slot w (Some (i, k)) (c_label c) (adapt (c_arity c) (c_bound c) args) (c_script c)
+      | KPlain => invoke_slot w (Some (i, k)) true (c_label c) (adapt (c_arity c) (c_bound c) args) (c_script c)
       | KReflective v =>
           let w1 := set_handles w (bind_key (w_handles w) v {| h_impl := Some i; h_id := Some k |}) in
-          invoke_slot w1 (Some (i, k)) (c_label c) args (c_script c)
+          invoke_slot w1 (Some (i, k)) true (c_label c) args (c_script c)
       | KSingle =>
           let w1 := handle_disconnect w {| h_impl := Some i; h_id := Some k |} in
-          invoke_slot w1 (Some (i, k)) (c_label c) args (c_script c)
+          invoke_slot w1 (Some (i, k)) true (c_label c) args (c_script c)
       | KDeferred e =>
           if ev_alive w e
           then ok (ev_enqueue w e {| h_impl := Some i; h_id := Some k |}
@@ -380,7 +381,7 @@ Section Exec.
               match nth_error (e_queue s) pos with
               | None => ok w
               | Some (h, v) =>
-                  match invoke_slot w (handle_src h) (v_label v) (v_args v) (v_script v) with
+                  match invoke_slot w (handle_src h) false (v_label v) (v_args v) (v_script v) with
                   | (w', None) => pass_loop f w' e (S pos)
                   | (w', Some x) => (w', Some x)
                   end
